@@ -118,8 +118,9 @@ def _structure(
         for (l1, fi) in sub_calls[1:]:
             # l1: List[Node]
             # fi: FunctionInteractions
-            # If it is a context-independent function, add it to the list of potential implicit dependencies
-            if len(fi.arg_input.named_args) == 0:
+            # If it is a context-independent function (all its arguments are known when the code is analyzed),
+            # add it to the list of potential implicit dependencies
+            if all(h is not None for h in fi.arg_input.named_args.values()):
                 start_nodes += l1
             # Otherwise, there is an implicit dep: introduce a single dep here
             else:
